@@ -10,3 +10,55 @@ package dns
 //@   ensures ok: ret1 ==> ret0 <= 4294967295
 //@   loop 1 invariant s <= 4294967295 && i <= 4294967295
 //@   pure
+
+// name completion (RFC 1035 5.1): "@" is the origin, absolute names stay, relative names get the origin
+//@ func appendOrigin [C06]
+//@   ensures dot:  isdot(origin) ==> len(ret0) == len(name) + 1 && ret0[len(name)] == '.'
+//@   ensures rel:  !isdot(origin) ==> len(ret0) == len(name) + 1 + len(origin) && ret0[len(name)] == '.' && (forall k in 0..len(origin) :: ret0[len(name) + 1 + k] == origin[k])
+//@   ensures pre:  forall k in 0..len(name) :: ret0[k] == name[k]
+//@   pure
+//@ func toAbsoluteName [C06]
+//@   ensures at:   len(name) == 1 && name[0] == '@' ==> ok == (len(origin) > 0) && (ok ==> absolute == origin)
+//@   ensures abs:  ok && !(len(name) == 1 && name[0] == '@') && IsFqdnSpec(name) ==> absolute == name
+//@   ensures rel:  ok && !(len(name) == 1 && name[0] == '@') && !IsFqdnSpec(name) ==> len(origin) > 0 && len(absolute) >= len(name) + 1 && absolute[len(name)] == '.' && (forall k in 0..len(name) :: absolute[k] == name[k])
+//@   ensures nonempty: ok ==> len(absolute) > 0
+//@   pure
+
+// the zone parser's line state machine: the most recently stated TTL is tracked unless a $TTL directive is
+// in force, $INCLUDE opens a file only when allowed and below the depth limit, $GENERATE does not nest
+//@ func (*ZoneParser).Next [C06 C07]
+//@   opt no-safety
+//@   requires zp != nil
+//@   assert at "st = zExpectAnyNoTTLBl@1" ttltrack0: zp.defttl != nil && (zp.defttl.isByDirective || zp.defttl.ttl == ttl) && zp.h.Ttl == ttl [C06]
+//@   assert at "st = zExpectAnyNoTTLBl@2" ttltrack1: zp.defttl != nil && (zp.defttl.isByDirective || zp.defttl.ttl == ttl) && zp.h.Ttl == ttl [C06]
+//@   assert at "st = zExpectRrtypeBl@2" ttltrack2: zp.defttl != nil && (zp.defttl.isByDirective || zp.defttl.ttl == ttl) && zp.h.Ttl == ttl [C06]
+//@   assert at "r1, e1 = zp.fsys.Open(includePath)" gatefs: zp.includeAllowed && zp.includeDepth < 7 [C07]
+//@   assert at "r1, e1 = os.Open(includePath)" gateos: zp.includeAllowed && zp.includeDepth < 7 [C07]
+//@   assert at "zp.sub = NewZoneParser(r1, neworigin, includePath)" depth: zp.includeDepth < 7 [C07]
+//@   exit sticky: old(zp.parseErr) != nil ==> ret0 == nil && !ret1 [C07]
+
+// $GENERATE: the range is checked before the generator is built, the generator stops at the end of the
+// range or when its counter would overflow, and a nested $GENERATE is refused
+//@ func NewZoneParser [C06 C07]
+//@   opt no-safety
+//@   ensures ret0 != nil
+//@   fresh
+//@ func (*ZoneParser).generate [C06 C07]
+//@   requires zp != nil
+//@   assert at "r := &generateReader{" range: 0 <= start && start <= end && step > 0 && (end - start) / step <= 65535
+//@   assert at "zp.sub = NewZoneParser(r, zp.origin, zp.file)" geninit: geninv(r.step, r.start, r.end, r.si, len(r.s), r.eof, r.cur) && r.lex != nil
+//@   assert at "return zp.subNext()" nonest: zp.sub != nil && zp.sub.generateDisallowed
+
+//@ spec geninv(step int, start int, end int, si int, slen int, eof bool, cur int) bool = step > 0 && 0 <= start && start <= end && 0 <= si && si <= slen && (!eof ==> start <= cur && cur <= end)
+//@ func (*generateReader).ReadByte [C06 C07]
+//@   opt wrap-int
+//@   requires r != nil
+//@   requires inv: geninv(r.step, r.start, r.end, r.si, len(r.s), r.eof, r.cur) && r.lex != nil
+//@   ensures inv: geninv(r.step, r.start, r.end, r.si, len(r.s), r.eof, r.cur)
+//@   ensures frame: r.step == old(r.step) && r.start == old(r.start) && r.end == old(r.end) && len(r.s) == old(len(r.s)) && r.lex == old(r.lex)
+//@   assert at "fmt.Fprintf(&r.mod, mod, r.cur+offset)" nooverflow: -9223372036854775808 <= r.cur + offset && r.cur + offset <= 9223372036854775807
+//@   ensures advance: r.cur == old(r.cur) || (ret0 == '\n' && (r.eof || r.cur > old(r.cur)))
+//@ func (*generateReader).parseError [C06 C07]
+//@   requires r != nil && r.lex != nil && 1 <= r.si && r.si - 1 <= end && end <= len(r.s)
+//@   ensures r.eof && ret0 != nil
+//@   ensures frame: r.step == old(r.step) && r.start == old(r.start) && r.end == old(r.end) && r.si == old(r.si) && r.cur == old(r.cur) && len(r.s) == old(len(r.s)) && r.lex == old(r.lex)
